@@ -24,24 +24,32 @@ type Ob struct {
 	Rule    string `json:"rule"`
 	Key     string `json:"key"` // pkg.Func|construct|operand — never a line number
 	Status  Status `json:"status"`
-	At      string `json:"at"`     // file:line of the subject
-	Detail  string `json:"detail"` // what discharged it, or the offending path
+	At      string `json:"at"`       // file:line of the subject
+	Detail  string `json:"detail"`   // what discharged it, or the offending path
 	Checked int    `json:"examined"` // paths / call sites / table rows examined while deciding
 	Known   bool   `json:"known_finding,omitempty"`
 }
 
 // Ctx collects the obligations of one property on one loaded world.
 type Ctx struct {
-	Prop  string
-	W     *World
-	Obs   []*Ob
-	Notes []string // advisory, never affects the verdict
-	Rules map[string]string // rule id -> sentence (for evidence.explanation)
+	Prop      string
+	W         *World
+	Obs       []*Ob
+	Notes     []string          // advisory, never affects the verdict
+	Rules     map[string]string // rule id -> sentence (for evidence.explanation)
 	ruleOrder []string
 }
 
 func NewCtx(prop string, w *World) *Ctx {
-	return &Ctx{Prop: prop, W: w, Rules: map[string]string{}}
+	c := &Ctx{Prop: prop, W: w, Rules: map[string]string{}}
+	if w != nil {
+		for _, h := range w.Inlined {
+			c.Notes = append(c.Notes, "helper "+h+" is unknown to the rules: its body was substituted at its call sites before analysis (positions below refer to the substituted source)")
+		}
+		c.Notes = append(c.Notes, w.Renamed...)
+		c.Notes = append(c.Notes, w.InlineNotes...)
+	}
+	return c
 }
 
 func (c *Ctx) Rule(id, text string) {
@@ -79,7 +87,9 @@ func (c *Ctx) Check(cond bool, rule, key string, pos token.Pos, okMsg, failMsg s
 	return cond
 }
 
-func (c *Ctx) Note(format string, args ...any) { c.Notes = append(c.Notes, fmt.Sprintf(format, args...)) }
+func (c *Ctx) Note(format string, args ...any) {
+	c.Notes = append(c.Notes, fmt.Sprintf(format, args...))
+}
 
 // NeedFunc resolves an anchored function; a missing anchor makes the property undecided.
 func (c *Ctx) NeedFunc(rule, name string) *Func {
